@@ -681,6 +681,48 @@ pub fn check_event_adaptors<'a, I: Iterator<Item = &'a gecs::prelude::EntityAny>
     if via_step != want {
         return Err("step_by(2) disagrees with plain iteration".to_string());
     }
+    // "an exact size_hint at every position": also at positions reached by jumping. After nth(k)
+    // exactly n - (k + 1) items remain (none when the jump ran past the end), the hint must say so,
+    // and what follows must be the rest of the plain sequence.
+    for k in 0..=(n.min(12) + 1) {
+        let mut it = mk();
+        let _ = it.nth(k);
+        let rem = n.saturating_sub(k + 1);
+        let h = it.size_hint();
+        if h != (rem, Some(rem)) {
+            return Err(format!("size_hint after nth({}) is {:?} but {} of {} items remain", k, h, rem, n));
+        }
+        let rest: Vec<Bits> = it.map(|e| abits(*e)).collect();
+        if rest[..] != plain[(k + 1).min(n)..] {
+            return Err(format!("after nth({}) the iterator yielded {:x?}, plain iteration from there is {:x?}", k, rest, &plain[(k + 1).min(n)..]));
+        }
+    }
+    // a mixed walk: jumps of 0, 1, 2, 0, 3, ... with the hint checked at every position reached
+    for phase in 0..3usize {
+        let mut it = mk();
+        let mut pos = 0usize;
+        let mut j = phase;
+        loop {
+            let h = it.size_hint();
+            let rem = n - pos.min(n);
+            if h != (rem, Some(rem)) {
+                return Err(format!("size_hint at position {} (reached by nth jumps, phase {}) is {:?} but {} items remain", pos, phase, h, rem));
+            }
+            let step = j % 4;
+            j += 1;
+            let got = it.nth(step).map(|e| abits(*e));
+            if got != plain.get(pos + step).copied() {
+                return Err(format!("nth({}) from position {} = {:x?}, plain iteration has {:x?}", step, pos, got, plain.get(pos + step)));
+            }
+            pos += step + 1;
+            if got.is_none() {
+                if it.size_hint() != (0, Some(0)) {
+                    return Err(format!("size_hint after running past the end is {:?}", it.size_hint()));
+                }
+                break;
+            }
+        }
+    }
     Ok(())
 }
 
